@@ -10,7 +10,7 @@ ID = 'C09'
 LEVEL = 'exploration'
 RULE = ('Hypothesis builds session byte streams from a grammar (1..3 transactions; bodies: empty, lone dots, dot-stuffed, '
         'command-looking lines, bare LF, over the SIZE limit; pipelined) and byte-level mutations of them; each stream is run '
-        'under: one burst, per line, per byte, cuts after every CR/LF, and 2 random cut lists; output bytes, callback trace with '
+        'under: one burst, per line, per byte, cuts after every CR/LF, one cut next to every line-ending dot, and 2 random cut lists; output bytes, callback trace with '
         'arguments and queued envelopes must be identical, and grammar-built streams must match the reference automaton. '
         'non-trivial = stream has a DATA phase followed by >=1 pipelined command; distinct = distinct (config, stream bytes)')
 ASSUMPTIONS = ['every segmentation ends with EOF after the last byte', 'message sizes stay 20 bytes away from the SIZE limit',
@@ -37,6 +37,11 @@ def segmentations(data, lines, extra_cuts):
         yield 'lines', lines
     yield 'bytes', [data[i:i + 1] for i in range(len(data))]
     yield 'crlf', cut(data, [i + 1 for i, c in enumerate(data) if c in (10, 13)])
+    # one cut next to a dot that ends a line (end-of-data markers, content lines ending in a dot, stuffed dots)
+    marks = [i for i in range(len(data) - 2) if data[i:i + 3] == b'.\r\n'][:8]
+    for m in marks:
+        for off in (0, 1, 2):
+            yield 'dotcut%d+%d' % (m, off), cut(data, [m + off])
     for k, cuts in enumerate(extra_cuts):
         yield 'cuts%d' % k, cut(data, [c % (len(data) + 1) for c in sorted(set(cuts))])
 
@@ -88,7 +93,8 @@ def grammar_session(draw):
             items.append(draw(st.sampled_from([L['RCPT'], L['RCPT2'], L['RCPT/550'], L['RCPT'], L['RCPT-then-DATA/550']])))
         body = draw(st.one_of(st.sampled_from(BODIES), st.lists(st.sampled_from(BODIES), max_size=4).map(b''.join)))
         if size and draw(st.integers(0, 3)) == 0:
-            body = body + b'0123456789abcdef\r\n' * 100 + draw(st.sampled_from([b'', b'QUIT\r\n', b'.\r\n']))
+            body = body + b'0123456789abcdef\r\n' * 100 + draw(st.sampled_from([
+                b'', b'QUIT\r\n', b'.\r\n', b'end.\r\nMAIL FROM:<evil@x.org>\r\nQUIT\r\n', b'..\r\nRSET\r\nQUIT\r\n', b'x\r\n']))
         items.append(Item('DATA', b'DATA', content=body, label='DATA[%d]' % len(body)))
         for _ in range(draw(st.integers(0, 2))):
             items.append(draw(st.sampled_from([L['NOOP'], L['RSET'], L['RCPT'], L['DATA'], L['UNKNOWN'], L['GARBAGE'], L['EHLO']])))
